@@ -381,7 +381,20 @@ func TestC12HeaderAcceptance(t *testing.T) {
 // ---------------------------------------------------------------- (c) restarts and (d) bind, through the public API
 
 func tcpHeader(ns, from, to, id string) string {
-	s := `<?xml version="1.0"?><stream:stream xmlns="` + ns + `" xmlns:stream="` + wire.StreamNS + `" version="1.0"`
+	return tcpHeaderV(ns, from, to, id, "1.0")
+}
+
+// tcpHeaderV: ns == "" omits the content namespace declaration, version == ""
+// the version attribute.
+func tcpHeaderV(ns, from, to, id, version string) string {
+	s := `<?xml version="1.0"?><stream:stream`
+	if ns != "" {
+		s += ` xmlns="` + ns + `"`
+	}
+	s += ` xmlns:stream="` + wire.StreamNS + `"`
+	if version != "" {
+		s += ` version="` + version + `"`
+	}
 	if id != "" {
 		s += ` id="` + esc(id) + `"`
 	}
@@ -476,8 +489,31 @@ func TestC12Restart(t *testing.T) {
 		if (recv && change == "to") || (!recv && change == "from") || change == "both" {
 			other = other.Domain()
 		}
-		desc := fmt.Sprintf("restart recv=%v s2s=%v us=%s them=%s second-header-change=%s", recv, s2s, us, them, change)
-		ev.Case(true, desc, "restart", "restart-"+change)
+		// second header: what it fails to declare although the first one did (what
+		// an earlier header of the same connection said does not count for a later one)
+		defects := []string{"none", "none", "none", "none", "noversion", "badversion", "nons", "otherns"}
+		if !recv {
+			defects = append(defects, "noid")
+		}
+		defect := rapid.SampledFrom(defects).Draw(rt, "defect")
+		ns2, id2, version2 := ns, "s2", "1.0"
+		switch defect {
+		case "noversion":
+			version2 = ""
+		case "badversion":
+			version2 = rapid.SampledFrom([]string{"0.9", "1.1", "2.0", "x"}).Draw(rt, "badversion")
+		case "nons":
+			ns2 = ""
+		case "otherns":
+			ns2 = "urn:verif:other"
+		case "noid":
+			id2 = ""
+		}
+		if recv {
+			id2 = ""
+		}
+		desc := fmt.Sprintf("restart recv=%v s2s=%v us=%s them=%s second-header-change=%s second-header-defect=%s", recv, s2s, us, them, change, defect)
+		ev.Case(true, desc, "restart", "restart-"+change, "restart-defect-"+defect)
 		fail := func(format string, args ...any) {
 			rt.Helper()
 			ev.Failf(rt, "%s\n%s", desc, fmt.Sprintf(format, args...))
@@ -507,7 +543,7 @@ func TestC12Restart(t *testing.T) {
 					if headers == 1 {
 						return []byte(tcpHeader(ns, them.String(), us.String(), "s1") + `<stream:features><restart xmlns="urn:verif:restart"/></stream:features>`)
 					}
-					return []byte(tcpHeader(ns, from2, to2, "s2") + `<stream:features/>`)
+					return []byte(tcpHeaderV(ns2, from2, to2, id2, version2) + `<stream:features/>`)
 				case bytes.Contains(fresh, []byte("<restart")):
 					return []byte(`<ok xmlns="urn:verif:restart"/>`)
 				}
@@ -520,7 +556,7 @@ func TestC12Restart(t *testing.T) {
 			case 1:
 				return []byte(`<restart xmlns="urn:verif:restart"/>`)
 			case 2:
-				return []byte(tcpHeader(ns, from2, to2, ""))
+				return []byte(tcpHeaderV(ns2, from2, to2, id2, version2))
 			}
 			return nil
 		})
@@ -543,7 +579,7 @@ func TestC12Restart(t *testing.T) {
 			fail("the restarting feature ran %d times (harness expectation 1); err=%v output=%q", ran, err, peer.Conn.Output())
 		}
 		sentHeaders := bytes.Count(peer.Conn.Output(), []byte("<stream:stream"))
-		if recv {
+		if recv && defect == "none" {
 			// the receiving side answers an accepted header with its own: a rejected
 			// second header leaves exactly one header of ours on the wire
 			if changed && sentHeaders != 1 {
@@ -552,6 +588,20 @@ func TestC12Restart(t *testing.T) {
 			if !changed && sentHeaders != 2 {
 				fail("the header after the restart is consistent but was not answered (%d headers sent, err=%v)\noutput: %q", sentHeaders, err, peer.Conn.Output())
 			}
+		}
+		if defect != "none" {
+			why := map[string]string{"noversion": "declares no version", "badversion": "declares version " + version2, "nons": "declares no content namespace",
+				"otherns": "declares the content namespace urn:verif:other", "noid": "carries no stream id"}[defect]
+			if err == nil {
+				fail("the header after the restart %s but was accepted; state %v\noutput: %q", why, s.State(), peer.Conn.Output())
+			}
+			if s != nil && s.State()&xmpp.Ready != 0 {
+				fail("session ready after a restart header that %s", why)
+			}
+			if recv && sentHeaders != 1 {
+				fail("the header after the restart %s but the library answered it with a stream header of its own (%d headers sent)\noutput: %q", why, sentHeaders, peer.Conn.Output())
+			}
+			return
 		}
 		if changed {
 			if err == nil {
